@@ -53,7 +53,7 @@ ResMatch(op, a0, b) ==
     /\ (a.err \in {"ok", "EOF"} \/ (op = "walk" /\ a.err = "ECALLBACK")) =>
         CASE op \in {"stat", "lstat", "fstat"} ->
                 IF Orefa(Impl) THEN [a.info EXCEPT !.u = 0, !.g = 0] = b.info ELSE a.info = b.info
-          [] op \in {"readlink", "evalsymlinks", "getwd"} -> a.path = b.path
+          [] op \in {"readlink", "evalsymlinks", "getwd", "abs"} -> a.path = b.path
           [] op \in {"readdir", "freaddir", "freaddirnames"} ->
                 a.n = b.n /\ (IF a.err = "ok" THEN a.names = Range(b.names) ELSE TRUE)
           [] op \in {"readfile", "read", "readat"} -> a.n = b.n /\ a.data = b.data
@@ -70,6 +70,7 @@ Matches(o, ev) ==
           (/\ ProjFor(o.st) = PostOf(ev)
            /\ CwdPath(o.st) = ev.cwd
            /\ ((ev.um # -1 /\ ~IsWin) => o.st.umask = ev.um)      \* the umask of the (parent) file system itself
+           /\ (("uid" \in DOMAIN ev /\ ev.uid # -1) => o.st.uid = ev.uid)   \* the current user of the base under a wrapper
            /\ (IF IsWin THEN [i \in DOMAIN HObs(o.st) |-> [HObs(o.st)[i] EXCEPT !.m = 0]] ELSE HObs(o.st)) = ev.hs
            /\ ev.srt
            /\ (o.inv = "ok" => ev.inv = "ok"))
